@@ -251,6 +251,17 @@ def apis():
         oqupy.state_gradient(system=s, initial_state=rho, target_derivative=np.eye(2), process_tensors=[pt],
                              parameters=np.ones((6, 1)) * 0.2, progress_type="rec")
 
+    def grad_target(fail_at):
+        # the objective's derivative is a user callable of the final state: it is evaluated after the forward pass
+        st, tick = counted(fail_at)
+        def target(state):
+            tick()
+            return np.eye(2, dtype=complex)
+        s = oqupy.ParameterizedSystem(lambda x: x * oqupy.operators.sigma("x"))
+        st["armed"] = True
+        oqupy.state_gradient(system=s, initial_state=rho, target_derivative=target, process_tensors=[pt],
+                             parameters=np.ones((6, 1)) * 0.2, progress_type="rec")
+
     def corr_nt(fail_at):
         st, tick = counted(fail_at)
         def ham(t):
@@ -274,6 +285,7 @@ def apis():
             ("compute_correlations_nt", True, corr_nt, True),
             ("compute_dynamics", False, dyn, True), ("compute_dynamics_with_field", False, dyn_field, True),
             ("compute_gradient_and_dynamics", False, grad, True),
+            ("compute_gradient_and_dynamics(callable target)", False, grad_target, True),
             ("PtTempo.compute", True, pttempo, False), ("PtTebd.compute", True, tebd, False)]
 
 
